@@ -424,10 +424,16 @@ func evalCase(d caseDesc) ev.Result {
 				// entry a.Entry keeps its genuine hashes but names the stranger's key and is signed by a.Signer's key
 				// (anybody but the key entry-1 names); a.Tail further entries are honestly built by the stranger;
 				// ProveOVHdr is signed by the stranger, advertises its key and announces the forged entry count
-				sb, sbkind := attackKey(d.Cfg, w, d.Chain, a.Signer)
+				var sb crypto.Signer
+				sbAlg := int64(0)
+				if a.Signer != "keep-sig" {
+					var sbkind string
+					sb, sbkind = attackKey(d.Cfg, w, d.Chain, a.Signer)
+					sbAlg = wire.AlgFor(sb.Public(), pss && keys.IsRSA(sbkind))
+				}
 				atk, akind := attackKey(d.Cfg, w, d.Chain, "stranger")
 				genuine := entryItems(w.voucher)
-				forged, err := wire.TakeOver(genuine, a.Entry%len(genuine), pubNode(d.Cfg, atk, akind, 0), sb, wire.AlgFor(sb.Public(), pss && keys.IsRSA(sbkind)), atk, wire.AlgFor(atk.Public(), pss && keys.IsRSA(akind)), a.Tail)
+				forged, err := wire.TakeOver(genuine, a.Entry%len(genuine), pubNode(d.Cfg, atk, akind, 0), sb, sbAlg, atk, wire.AlgFor(atk.Public(), pss && keys.IsRSA(akind)), a.Tail)
 				if err != nil {
 					return nil
 				}
@@ -702,7 +708,7 @@ func genAttack(t *rapid.T, chain int) attack {
 	case "takeover":
 		a.Entry = rapid.IntRange(0, chain-1).Draw(t, "entry")
 		a.Tail = rapid.IntRange(0, 2).Draw(t, "tail")
-		a.Signer = rapid.SampledFrom([]string{"stranger", "stranger", "earlier", "device", "mfg", "owner"}).Draw(t, "signer")
+		a.Signer = rapid.SampledFrom([]string{"stranger", "stranger", "keep-sig", "earlier", "device", "mfg", "owner"}).Draw(t, "signer")
 	case "zero-entries":
 		a.Signer = rapid.SampledFrom([]string{"stranger", "earlier", "device", "owner"}).Draw(t, "signer")
 	case "entries":
